@@ -4,19 +4,35 @@ import json, os
 ROOT = os.path.dirname(os.path.dirname(os.path.abspath(__file__)))
 ids = [json.loads(l)["id"] for l in open(os.path.join(ROOT, "properties.jsonl"))]
 
+COMMON_NOTE = ("trusted: Lean 4.33 kernel + propext/Classical.choice/Quot.sound (per-theorem list in evidence); the hand-written model is tied to /repo by the correspondence run of the same check "
+               "(harness qvh over the in-memory backend SimFile + cfg-guarded read-only hooks, Lean driver qvdrv, differ in /verif/check); sampled, not exhaustive, on the implementation side")
+
 CLAIMED = {
- "C15": dict(
-   text="Lean 4 theorems (Qv/Props/C15.lean, 47 statements) prove for ALL inputs: L2/L1 entry decode equals the specification's field reading and encode/decode are mutually inverse on every spec-permitted entry (exact characterisation of the lossy and panicking cases), refcount get/set/frame/big-endian/LSB-first/refusal laws for all 7 widths and every index, Info::new geometry equals the spec formulas, SplitGuestOffset/HostCluster index composition reproduces the offset. The model is tied to src/meta/*.rs, src/dev/info.rs and HostCluster by a byte-identical request/response differential on every run.",
-   ref="5.C15", tech="Lean 4 theorems over a hand-written codec model + request/response correspondence with the real meta API",
-   note="trusted: Lean kernel, propext/Classical.choice/Quot.sound, bv_decide native axioms confined to named bit-level helper lemmas (listed in evidence), the harness (qvh pure) and differ; header (de)serialisation round trip is checked by C14's differential, not by these theorems"),
- "C13": dict(
-   text="Lean 4 theorems (Qv/Props/C13.lean) prove for ALL (offset, length, geometry, state): invalid writes return Err with the device state unchanged, read-only devices refuse write and discard, rejected/empty/clamped reads return exactly the documented result, no argument makes a read panic, the discard prologue cannot overflow and its range is inside the request. Tied to __read_at/__write_at/discard by sequential correspondence (results, RAM metadata view, request log) on a boundary grid incl. the u64::MAX neighbourhood; the flat-disk oracle and a no-modifying-request/no-metadata-change oracle judge the real code's outputs.",
-   ref="5.C13", tech="Lean 4 theorems over the mirrored validation prologues + sequential correspondence and flat-disk oracle",
-   note="trusted: Lean kernel + standard axioms; harness SimFile backend and hooks; the model's cache-free view of metadata"),
  "C01": dict(
-   text="The sequential device model Qv.Model.Dev (allocator, L1/L2 mapping, zero-once, COW, discard) is executed on the same histories as the real Qcow2Dev and must agree on every result, read buffer, every L2 entry, every refcount, allocation hint and flushed file tables; the independent flat-disk specification Qv.Spec.Flat judges every read and every reopen sweep of the real code. Theorem set in Qv/Props/C01.lean (flat-disk laws; refinement statements under construction, see DESIGN 5.C01).",
-   ref="5.C01", tech="Lean 4 executable model + flat-disk spec, correspondence on generated histories, theorems on the model",
-   note="partial: the refinement theorem step_refines_flat is not yet closed; what is proved is listed in evidence.theorems. Backing/compressed images are covered from the builder stage on"),
+   text="Theorems (Qv/Props/C01.lean): the flat reference disk's laws for all inputs - read-your-writes, frame, last-writer-wins over arbitrary write sequences (flat_read_after_writes). The sequential device model Qv.Model.Dev (allocator, L1/L2 mapping, zero-once, COW from backing and compressed clusters, discard) is executed on the same histories as the real Qcow2Dev and must agree on every result, read buffer, every L2 entry, every refcount, allocation hint and flushed file tables; the independent specification Qv.Spec.Flat judges every read and every reopen sweep of the real code, on self-formatted images and on images from an independent builder (backing chains incl. shorter backing, compressed, zero, v2/v3).",
+   ref="5.C01", tech="Lean 4 theorems on the flat-disk spec + executable Lean device model in lock-step correspondence with the real code + flat-disk oracle",
+   note="partial: the refinement theorem `step_refines_flat` (model step = flat step for every state) is proved for the flat spec and for the in-place / allocator pieces only (see evidence.theorems); the model-vs-code tie is by correspondence. " ),
+ "C02": dict(
+   text="Theorems (Qv/Props/C02.lean): reopening the model on the flushed state with ANY legal parameters preserves every L2 entry, refcount, data sector and every read result (reopen_reads_same), for all states and geometries. Tie: after every successful flush the real code's file is swept through two freshly opened real devices (same and different block/slice/cache parameters) and compared with the flat disk; the file's own tables are compared with the model.",
+   ref="5.C02", tech="Lean 4 theorems on the model's reopen + flush/reopen oracle through the real code", note=COMMON_NOTE + "; the model is cache-free: that the real caches are transparent is what the correspondence checks, not a theorem"),
+ "C08": dict(
+   text="Theorems (Qv/Props/C08.lean, 41): for all refcount slices and device states - free-window search returns the FIRST all-zero window or none when none exists (sound, first, complete, fuel suffices), slice allocation hands out only refcount-0 clusters, contiguous, no longer than requested, sets them to 1 and changes nothing else; free decrements exactly once, never below zero (panics instead), lowers the hint to the freed cluster; alloc-then-free round trip; the allocator loops terminate with the model's fuel under every geometry. Tie: allocator choices of the real code (host offsets, hint, every refcount) equal the model's on write/discard/rewrite cycles; single-owner and refcount>=1 oracle on the RAM view after every operation.",
+   ref="5.C08", tech="Lean 4 theorems on the mirrored allocator + correspondence of every allocation decision + ownership oracle", note=COMMON_NOTE + "; concurrent allocation (disjointness under interleaving) is covered by C06's schedule exploration, not by these theorems"),
+ "C10": dict(
+   text="Theorems (Qv/Props/C10.lean): for every history on the top device the backing chain's content, the compressed plaintext and geometry are unchanged (run_sameBack over all 25 state-changing functions); a read-only device never changes under any history; exact COW merge formula for backing and compressed sources incl. zeros beyond a shorter backing image (cow_source_backing/compressed). Tie + oracle: partial/straddling writes over backing-provided and compressed clusters on builder images; per-device request logs must contain reads only for backing and read-only devices.",
+   ref="5.C10", tech="Lean 4 frame theorems over the whole write path + COW histories in correspondence + read-only request-stream oracle", note=COMMON_NOTE),
+ "C11": dict(
+   text="Theorems (Qv/Props/C11.lean): Flat.discard is exactly the statement (whole owned clusters inside the clipped range become zero, everything else unchanged, idempotent); on the model, discard of a cluster clears the mapping (zero flag when a backing file exists, in-place zeroing for v2), decrements exactly the released clusters' refcounts, zeroes their data, and the discarded cluster reads zeros and NEVER the backing chain (discardOne_reads_zero_any_backing); the loop visits exactly the whole clusters of the range. Tie + oracle: discard with all argument shapes over all cluster states, with/without backing.",
+   ref="5.C11", tech="Lean 4 theorems on Flat.discard and the mirrored discard path + correspondence + flat oracle", note=COMMON_NOTE + "; the code batches the release of a discard call after a metadata flush (soft-update repair) while the model releases per cluster: final states coincide, which the correspondence checks"),
+ "C13": dict(
+   text="Theorems (Qv/Props/C13.lean): for ALL (offset, length, geometry, state): invalid writes return Err with the device state unchanged, read-only devices refuse write and discard, rejected/empty/clamped reads return exactly the documented result, no argument makes a read panic, the discard prologue cannot overflow and its range is inside the request. Tie: boundary grid incl. the u64::MAX neighbourhood; flat oracle and a no-modifying-request/no-metadata-change oracle judge the real code.",
+   ref="5.C13", tech="Lean 4 theorems over the mirrored validation prologues + sequential correspondence and flat-disk oracle", note=COMMON_NOTE),
+ "C15": dict(
+   text="Theorems (Qv/Props/C15.lean, ~48): for ALL inputs - L2/L1 entry decode equals the specification's field reading; encode/decode mutually inverse on every spec-permitted entry (exact iff characterisations incl. compressed sector-count bound); refcount get/set/frame/big-endian/LSB-first/refusal for all 7 widths and every index; Info::new geometry equals the spec formulas; guest-offset and host-cluster index composition reproduces the offset. Tie: byte-identical request/response differential with the real meta API.",
+   ref="5.C15", tech="Lean 4 theorems over a hand-written codec model + request/response correspondence with the real meta API", note=COMMON_NOTE + "; bv_decide native-evaluation axioms confined to named bit-level helper lemmas (listed in evidence); header (de)serialisation round trip is covered by C14's differential"),
+ "C16": dict(
+   text="Theorems (Qv/Props/C16.lean): every request site's (offset, length) arithmetic (data, compressed bounce read, slices, top-table blocks and loads, zeroing, COW cluster, header read, per-cluster pieces of a request) is block aligned for all geometries with bs <= slice <= cluster; the header write site is proved NOT aligned (headerWrite_unaligned) - known finding. Oracle: the in-memory backend records offset, length and buffer address of every request of every history.",
+   ref="5.C16", tech="Lean 4 theorems on the request-site arithmetic + alignment oracle on the real request log", note=COMMON_NOTE + "; buffer-address alignment is observed (address mod 4096), not proved"),
 }
 
 m = {
